@@ -347,27 +347,40 @@ func (m *Monitors) verifyReturned(c *Call) {
 	d := n.r.VerifDump()
 	voters, acks := 0, 1
 	var who []string
-	callerVoter := false
-	for _, s := range d.Latest.Servers {
-		if s.Suffrage != raft.Voter {
-			continue
-		}
-		voters++
-		if s.ID == n.sid {
-			callerVoter = true
-			continue
-		}
-		v := w.nodeByAddr(s.Address)
-		for _, a := range m.acks {
-			if a.from == c.Node && a.to == v && a.term == term && a.delivAt >= c.InvokeEv {
-				acks++
-				who = append(who, string(s.ID))
-				break
+	count := func(cfg raft.Configuration) {
+		voters, acks, who = 0, 1, nil
+		callerVoter := false
+		for _, s := range cfg.Servers {
+			if s.Suffrage != raft.Voter {
+				continue
+			}
+			voters++
+			if s.ID == n.sid {
+				callerVoter = true
+				continue
+			}
+			v := w.nodeByAddr(s.Address)
+			for _, a := range m.acks {
+				if a.from == c.Node && a.to == v && a.term == term && a.delivAt >= c.InvokeEv {
+					acks++
+					who = append(who, string(s.ID))
+					break
+				}
 			}
 		}
+		if !callerVoter {
+			acks--
+		}
 	}
-	if !callerVoter {
-		acks--
+	count(d.Latest)
+	if acks*2 <= voters {
+		// the configuration changed while the call was running: a majority of the one in force when it began also counts
+		if cfg0, ok := m.verifyCfg[c.ID]; ok && fmt.Sprint(cfg0.Servers) != fmt.Sprint(d.Latest.Servers) {
+			count(cfg0)
+			if acks*2 <= voters {
+				count(d.Latest)
+			}
+		}
 	}
 	if acks*2 <= voters {
 		sig := "verify-without-fresh-voter-majority"
